@@ -49,6 +49,11 @@ def cases(tier):
         cs.append({'name': 'truncation/n3/triclinic', 'n': 3, 'declare': False, 'vel': False, 'mode': 'trunc', 'box': [[3, 0, 0], [0.5, 4, 0], [0.2, 0.3, 5]]})
         cs.append({'name': 'truncation/n3/4decimals', 'n': 3, 'declare': False, 'vel': True, 'mode': 'trunc', 'fmt': (9, 4)})
     for n in (1, 3):
+        for eol in ('lf', 'crlf'):
+            cs.append({'name': 'byte-truncation/%s/n%d' % (eol, n), 'n': n, 'declare': False, 'vel': n == 3, 'mode': 'bytes', 'eol': eol})
+    cs.append({'name': 'byte-truncation/lf/n0', 'n': 0, 'declare': False, 'vel': False, 'mode': 'bytes', 'eol': 'lf'})
+    cs.append({'name': 'byte-truncation/lf/n2/non-ascii-names', 'n': 2, 'declare': False, 'vel': False, 'mode': 'bytes', 'eol': 'lf', 'nonascii': True})
+    for n in (1, 3):
         for declare in (False, True):
             cs.append({'name': 'writer-crash/n%d/%s' % (n, 'declared' if declare else 'deferred'), 'n': n, 'declare': declare, 'vel': n == 3, 'mode': 'crash'})
             cs.append({'name': 'writer-crash/n%d/%s/non-ascii-title' % (n, 'declared' if declare else 'deferred'), 'n': n, 'declare': declare, 'vel': n == 3,
@@ -70,6 +75,80 @@ def _read_all(fobj):
     return [tuple(r) for r in recs], g.natoms
 
 
+def _disk_bytes(case, recs, box):
+    """bytes of a complete file as another program may have written it: LF or CRLF line ends, optionally non-ASCII names"""
+    from symx.files import write_gro_text
+    if case.get('nonascii'):
+        recs = [[r[0], 'R\u00e9S', 'C\u00c5' + str(i)] + list(r[3:]) for i, r in enumerate(recs)]
+    if case['n'] == 0:
+        # a system without atoms (the writer never produces one: hand-made, as other tools write it)
+        text = 'title\n    0\n   3.00000   4.00000   5.00000\n'
+    else:
+        text = write_gro_text(recs, box=box, declare=False, comment='title')
+    if case.get('eol') == 'crlf':
+        text = text.replace('\n', '\r\n')
+    return text.encode('utf-8')
+
+
+def _read_bytes(data, t):
+    import os, tempfile
+    d = tempfile.mkdtemp(prefix='c14b-')
+    pth = os.path.join(d, 'partial.gro')
+    try:
+        with open(pth, 'wb') as fh:
+            fh.write(data[:t])
+        return _read_all(pth)
+    finally:
+        try:
+            os.remove(pth)
+        except OSError:
+            pass
+        os.rmdir(d)
+
+
+def _byte_truncation(case, recs, box):
+    """real files on disk, truncation byte symbolic: one path per value, coverage of 0..len proved"""
+    from symx.core import explore, SymInt
+    data = _disk_bytes(case, recs, box)
+    try:
+        full, _ = _read_bytes(data, len(data))
+    except Exception:
+        full = None                                       # e.g. a system without atoms is refused as a whole
+    records = [{'name': 'complete file (%d bytes, %s) is read back with %d records%s' % (len(data), case.get('eol'), case['n'], '' if full is not None else ' - refused as a whole'),
+                'status': 'validated' if (full is None and case['n'] == 0) or (full is not None and len(full) == case['n']) else 'error', 'secs': 0}]
+    eol = b'\r\n' if case.get('eol') == 'crlf' else b'\n'
+    box_start = data.rstrip(b'\r\n').rfind(eol) + len(eol)
+    tv = z3.Int('trunc')
+    cover, bad, paths = [], None, 0
+
+    def run(ctx):
+        ctx.assume(z3.And(tv >= 0, tv < len(data)))
+        return SymInt(tv, 0, len(data) - 1).concretize()
+    for ctx, t, exc in explore(run, max_paths=5000):
+        paths += 1
+        cover.append(z3.And(*ctx.pc) if ctx.pc else z3.BoolVal(True))
+        try:
+            got, _ = _read_bytes(data, t)
+            verdict = 'accepted'
+        except AcceptedThenFailed as e:
+            got, verdict = None, 'opened without error, then %s' % e
+        except Exception:
+            continue                                    # rejected: fine
+        if bad is None and not (verdict == 'accepted' and got == full and t > box_start):
+            bad = {'t': t, 'verdict': verdict}
+    rec = {'name': 'every byte-level truncation of the %d-byte file (%s line ends%s): rejected, or accepted after the box line has started with exactly the complete records (%d paths)' % (
+        len(data), case.get('eol'), ', non-ASCII names' if case.get('nonascii') else '', paths), 'status': 'unsat' if bad is None else 'sat', 'secs': 0}
+    if bad:
+        rec['witness'] = {'kind': 'bytes', 'n': case['n'], 'vel': case['vel'], 'eol': case.get('eol'), 'nonascii': bool(case.get('nonascii')), 't': bad['t'], 'declare': False}
+    records.append(rec)
+    s = z3.Solver(); s.set('timeout', 60000)
+    s.add(tv >= 0, tv < len(data)); s.add(z3.Not(z3.Or(*cover)))
+    r = str(s.check())
+    records.append({'name': 'explored paths exhaust the truncation points', 'status': 'unsat' if r == 'unsat' else 'unknown', 'secs': 0})
+    records.append({'name': 'reachability-twin', 'status': 'twin', 'secs': 0})
+    return {'records': records, 'paths': paths, 'queries': 1, 'solver_s': 0, 'samples': [{'bytes': len(data), 'box_line_starts_at': box_start}], 'nontrivial': ['bytes-%s' % case.get('eol')]}
+
+
 def run_case(case):
     from symx.core import explore, SymInt, Ctx
     from symx.files import SymEOFFile, MemFile, write_gro_text, apply_ops
@@ -79,6 +158,8 @@ def run_case(case):
     records, samples, nontrivial = [], [], []
     st = {'paths': 0, 'queries': 0, 'solver_s': 0.0}
     recs = _records(n, vel)
+    if case['mode'] == 'bytes':
+        return _byte_truncation(case, recs, box)
     if case['mode'] == 'crash':
         text, ops = write_gro_text(recs, box=box, declare=declare, position_format=case.get('fmt'), oplog=True, comment=case.get('title', 'title'))
         import os, tempfile
@@ -202,6 +283,22 @@ def replay(w):
     from gaddlemaps.parsers import GroFile
     recs = _records(w['n'], w['vel'])
     box = w.get('box') or (3.0, 4.0, 5.0)
+    if w['kind'] == 'bytes':
+        data = _disk_bytes(w, recs, box)
+        try:
+            full, _ = _read_bytes(data, len(data))
+        except Exception:
+            full = None
+        eol = b'\r\n' if w.get('eol') == 'crlf' else b'\n'
+        box_start = data.rstrip(b'\r\n').rfind(eol) + len(eol)
+        try:
+            got, _ = _read_bytes(data, w['t'])
+            what = 'accepted' if got == full and w['t'] > box_start else 'accepted a file cut at byte %d of %d (box line starts at %d) and returned %d records' % (w['t'], len(data), box_start, len(got))
+            return {'reproduced': what != 'accepted', 'what': 'gro file with %s line ends: %s' % (w.get('eol'), what), 'detail': {}}
+        except AcceptedThenFailed as e:
+            return {'reproduced': True, 'what': 'gro file cut at byte %d opened without error, then %s' % (w['t'], e), 'detail': {}}
+        except Exception as e:
+            return {'reproduced': False, 'what': 'rejected with %s' % type(e).__name__, 'detail': {}}
     if w['kind'] == 'crash':
         text, ops = write_gro_text(recs, box=box, declare=w['declare'], oplog=True, comment=w.get('title') or 'title')
         partial = apply_ops(ops[:w['k']])
